@@ -32,18 +32,23 @@ func BigIntegerFromString(ctx context.Context, s string) (*big.Int, error) {
 	// no prefix means decimal etc.
 	i, ok := new(big.Int).SetString(s, 0)
 	if !ok {
-		f, _, err := big.ParseFloat(s, 10, 256, big.ToNearestEven)
-		if err != nil {
+		// Not a plain integer: accept the decimal floating point / exponent notation that
+		// big.ParseFloat accepts in base 10, but only when the text denotes an integer exactly.
+		if _, _, err := big.ParseFloat(s, 10, 256, big.ToNearestEven); err != nil {
 			log.L(ctx).Errorf("Error parsing numeric string '%s': %s", s, err)
 			return nil, i18n.NewError(ctx, signermsgs.MsgInvalidNumberString, s)
 		}
-		i, accuracy := f.Int(i)
-		if accuracy != big.Exact {
+		// The value is taken with exact rational arithmetic. A big.Float has already rounded the
+		// digits to its precision while parsing, so the accuracy reported by Float.Int() cannot
+		// see what was lost there (e.g. "1.000...0001" with more than 77 digits, or "1e-2147483649").
+		r, ok := new(big.Rat).SetString(s)
+		if !ok || !r.IsInt() {
 			// If we weren't able to decode without losing precision, return an error
+			// (this includes infinities, and exponents too large to be expanded exactly)
 			return nil, i18n.NewError(ctx, signermsgs.MsgInvalidIntPrecisionLoss, s)
 		}
 
-		return i, nil
+		return r.Num(), nil
 	}
 	return i, nil
 }
